@@ -24,9 +24,17 @@ for mp in sorted(glob.glob(os.path.join(ROOT, "seeded", "C*", "*", "meta.json"))
     t2.append("| `%s` | %s | %s | %s | %s%s |" % (rel, (m.get("breaks") or "").replace("|", "\\|").replace("\n", " ")[:230],
                                                "yes" if m.get("confirmed") else "no", ("n/a" if m.get("caught_by_check") is None else ("yes" if m.get("caught_by_check") else "NO")), keys, (" — " + note) if note else ""))
 
+t3 = ["| prop | theorems in `Props.v` (all print `Closed under the global context`) | Coq lines |", "|---|---|---|"]
+for d in sorted(glob.glob(os.path.join(ROOT, "coq", "theories", "C*"))):
+    pid = os.path.basename(d)
+    src = open(os.path.join(d, "Props.v")).read()
+    names = re.findall(r"^\s*Theorem\s+([A-Za-z0-9_']+)", src, re.M)
+    nl = sum(len(open(f).read().splitlines()) for f in glob.glob(os.path.join(d, "*.v")))
+    t3.append("| %s | %s | %d |" % (pid, ", ".join("`%s`" % n for n in names), nl))
+
 p = os.path.join(ROOT, "DESIGN.md")
 s = open(p).read()
-for name, tab in (("FIXED", t1), ("SEEDED", t2)):
+for name, tab in (("FIXED", t1), ("SEEDED", t2), ("THEOREMS", t3)):
     b, e = "<!-- %s-TABLE-BEGIN -->" % name, "<!-- %s-TABLE-END -->" % name
     if b in s and e in s:
         s = s[:s.index(b) + len(b)] + "\n" + "\n".join(tab) + "\n" + s[s.index(e):]
